@@ -27,6 +27,7 @@ structure HttpRequest where
   path : Str
   header : Str → Str
   contentLength : Int
+  deriving Inhabited
 
 /-- a compiled `*regexp.Regexp` as its `FindStringSubmatch` function (`[]` = nil = no match; a match has at
     least one element); `MatchString s` is `!(re s).isEmpty` -/
